@@ -81,6 +81,10 @@ fn replay_case(idx: usize, case: &Value) -> Value {
         // only chain programs have a slow variant
         return json!({"idx": idx, "ok": true, "problems": [], "observed": [], "events": [], "skipped": true});
     }
+    if slow && calls.iter().any(|c| c == "snapshot") {
+        // a snapshot does not carry extern functions: the slow variant cannot be restored
+        return json!({"idx": idx, "ok": true, "problems": [], "observed": [], "events": [], "skipped": true});
+    }
     let code = program_for(&levels, slow);
     let max_time = if mt < 100 { Duration::from_millis(15) } else { Duration::from_secs(30) };
     let limits = RunLimits { max_facts: mf, max_iterations: mi, max_time };
@@ -108,6 +112,13 @@ fn replay_case(idx: usize, case: &Value) -> Value {
             "authorize" => classify(a.authorize()),
             "query" => classify(a.query::<_, (i64,), _>("q($x) <- reach($x)")),
             "query_all" => classify(a.query_all::<_, (i64,), _>("q($x) <- pad($x)")),
+            "snapshot" => match a.to_raw_snapshot().map_err(|e| format!("{e:?}")).and_then(|s| biscuit_auth::Authorizer::from_raw_snapshot(&s).map_err(|e| format!("{e:?}"))) {
+                Ok(b) => {
+                    a = b;
+                    "ok".to_string()
+                }
+                Err(e) => format!("error:{e}"),
+            },
             o => panic!("unknown call {o}"),
         });
         let evs = biscuit_auth::verif::take();
@@ -128,7 +139,7 @@ fn replay_case(idx: usize, case: &Value) -> Value {
         let facts = a.fact_count() as u64;
         events.push(json!({"ev": "return", "name": c, "outcome": class, "iterations": iters, "facts": facts}));
         detail.push(json!({"call": c, "outcome": out, "iterations": iters, "facts": facts}));
-        if class == "ok" {
+        if class == "ok" && c != "snapshot" {
             // the property, directly: never more iterations or facts than the budget on success
             if iters > mi {
                 problems.push(format!("call {c}: Ok with iterations() = {iters} > max_iterations = {mi}"));
